@@ -375,7 +375,6 @@ func TestC18CloudEvents(t *testing.T) {
 	})
 }
 
-
 // TestC18Reuse: one long-lived FormatterFilter whose exported Source / Schema / Format / SignEventTypes are
 // re-assigned between events; every event is judged against the configuration in force when it was processed.
 func TestC18Reuse(t *testing.T) {
